@@ -590,6 +590,10 @@ class Repo:
 
     @staticmethod
     def repeats_below_repeat(decl, sup):
+        for q in decl['quals']:
+            iq = sup['quals'].get(q[0].lower())
+            if iq and iq['decl_why'] == 'same-as-inherited' and iq['value'] == q[1]:
+                return True
         for e in decl['elems']:
             ie = sup['props' if e['kind'] == 'p' else 'meths'].get(e['name'].lower())
             for q in (e['quals'] if ie else []):
